@@ -40,36 +40,86 @@ theorem accepted_iff_nodup (ps : List DPol) : accepted ps = true ↔ (ps.map (·
   · intro h x hx; have := h x hx; omega
   · intro h x hx; have := h x hx; omega
 
-theorem runChain_no_throttle (cap : CapFn) (hs : List (String × String)) (t : Nat) (l : List DPol)
-    (st : State Key) (ans : Answer) (h : l.filterMap remedyOf = []) :
-    runChain cap hs t l st ans = (st, ans) := by
-  induction l generalizing st ans with
+/-- policies that are a throttling remedy or can never answer a request -/
+def plain (p : DPol) : Bool := isTransparent p || (remedyOf p).isSome
+
+theorem stepPol_transparent (cap : CapFn) (url method : String) (hs : List (String × String)) (t : Nat)
+    (p : DPol) (s : DState) (h : isTransparent p = true) : stepPol cap url method hs t p s = (s, .pass) := by
+  unfold isTransparent at h
+  unfold stepPol
+  split <;> simp_all
+
+theorem stepPol_throttle (cap : CapFn) (url method : String) (hs : List (String × String)) (t : Nat)
+    (p : DPol) (s : DState) (r : Remedy) (h : remedyOf p = some r) :
+    stepPol cap url method hs t p s
+      = ({ s with lim := (pluginStep cap s.lim r hs t).1 }, toDAns (pluginStep cap s.lim r hs t).2) := by
+  unfold remedyOf at h
+  unfold stepPol
+  split at h <;> simp_all
+
+theorem runChain_no_throttle (cap : CapFn) (url method : String) (hs : List (String × String)) (t : Nat)
+    (l : List DPol) (s : DState) (ans : DAns) (hp : l.all plain = true) (h : l.filterMap remedyOf = []) :
+    runChain cap url method hs t l s ans = (s, ans) := by
+  induction l generalizing s ans with
   | nil => rfl
   | cons p ps ih =>
-    cases hp : remedyOf p with
+    simp only [List.all_cons, Bool.and_eq_true] at hp
+    cases hr : remedyOf p with
     | none =>
-      simp only [List.filterMap_cons, hp] at h
-      simp only [runChain, hp]
-      exact ih st ans h
-    | some r => simp [List.filterMap_cons, hp] at h
+      simp only [List.filterMap_cons, hr] at h
+      have htr : isTransparent p = true := by
+        have := hp.1; simp only [plain, hr, Option.isSome_none, Bool.or_false] at this; exact this
+      simp only [runChain, stepPol_transparent cap url method hs t p s htr]
+      have : (if ans == DAns.pass then DAns.pass else ans) = ans := by
+        by_cases ha : ans = .pass <;> simp [ha]
+      rw [this]
+      exact ih s ans hp.2 h
+    | some r => simp [List.filterMap_cons, hr] at h
 
-theorem runChain_single_throttle (cap : CapFn) (hs : List (String × String)) (t : Nat) (l : List DPol)
-    (st : State Key) (r : Remedy) (h : l.filterMap remedyOf = [r]) :
-    runChain cap hs t l st .noop = pluginStep cap st r hs t := by
-  induction l generalizing st with
+theorem runChain_single_throttle (cap : CapFn) (url method : String) (hs : List (String × String)) (t : Nat)
+    (l : List DPol) (s : DState) (r : Remedy) (hp : l.all plain = true) (h : l.filterMap remedyOf = [r]) :
+    runChain cap url method hs t l s .pass
+      = ({ s with lim := (pluginStep cap s.lim r hs t).1 }, toDAns (pluginStep cap s.lim r hs t).2) := by
+  induction l generalizing s with
   | nil => simp at h
   | cons p ps ih =>
-    cases hp : remedyOf p with
+    simp only [List.all_cons, Bool.and_eq_true] at hp
+    cases hr : remedyOf p with
     | none =>
-      simp only [List.filterMap_cons, hp] at h
-      simp only [runChain, hp]
-      exact ih st h
+      simp only [List.filterMap_cons, hr] at h
+      have htr : isTransparent p = true := by
+        have := hp.1; simp only [plain, hr, Option.isSome_none, Bool.or_false] at this; exact this
+      simp only [runChain, stepPol_transparent cap url method hs t p s htr]
+      exact ih s hp.2 h
     | some r' =>
-      simp only [List.filterMap_cons, hp, List.cons.injEq] at h
-      obtain ⟨hr, hrest⟩ := h
-      subst hr
-      simp only [runChain, hp]
-      rw [runChain_no_throttle cap hs t ps _ _ hrest]
+      simp only [List.filterMap_cons, hr, List.cons.injEq] at h
+      obtain ⟨hrr, hrest⟩ := h
+      subst hrr
+      simp only [runChain, stepPol_throttle cap url method hs t p s r' hr]
+      rw [runChain_no_throttle cap url method hs t ps _ _ hp.2 hrest]
       simp
+
+theorem storeWalk_plain (ch : List DPol) (seen : Int × String) (hp : ch.all plain = true) :
+    storeWalk ch seen = none := by
+  induction ch generalizing seen with
+  | nil => rfl
+  | cons p ps ih =>
+    simp only [List.all_cons, Bool.and_eq_true] at hp
+    have hpl := hp.1
+    unfold plain isTransparent remedyOf at hpl
+    unfold storeWalk
+    split
+    · split <;> exact ih _ hp.2
+    · simp_all
+    · exact ih _ hp.2
+
+theorem storeEarly_plain (c : List ((String × String) × (Int × String))) (ch : List DPol) (url method : String)
+    (a : DAns) (hp : ch.all plain = true) : storeEarly c ch url method a = c := by
+  cases a with
+  | pass => rfl
+  | err => rfl
+  | early st b =>
+    simp only [storeEarly, storeWalk_plain ch (st, b) hp]
+    split <;> rfl
 
 end LunarVerif.C09
